@@ -73,7 +73,7 @@ theorem C02_range_irrelevant (tokens : List Tok) (h : tokens.any (fun t => t.kin
 
 /-- ADVANCED_UNITS (and RANGE_VALUES) in `parse_quantity`: when the tokens between the braces
     contain no `-` and either contain a `%` or the tokens before the first word do not end in
-    whitespace (`quantCore`), the advanced parser declines and the quantity is read alike under
+    whitespace, trailing block comments not counted (`quantCore`), the advanced parser declines and the quantity is read alike under
     every extension set -/
 theorem C02_advanced_irrelevant (q : List Tok) (h : quantCore q = true) (s : BP α) (e : Ext) :
     parseQuantity q (s.withExt e) = ((parseQuantity q s).1, (parseQuantity q s).2.withExt e) :=
@@ -432,7 +432,7 @@ theorem C02_range_local (cs : CharSpec) (e₁ e₂ : Ext) (oldStyle : Bool) (blo
 
 /-- ADVANCED_UNITS changes (in the parser) only quantities of the shape value, blank, word without `%`:
     on a block every `{quantity}` of which the advanced parser declines (`advCore`: it contains a
-    `%`, or the tokens before the first word do not end in whitespace), two extension sets that agree
+    `%`, or the tokens before the first word do not end in whitespace, trailing block comments not counted), two extension sets that agree
     on the other six parser flags give the same events. -/
 theorem C02_advanced_local (cs : CharSpec) (e₁ e₂ : Ext) (oldStyle : Bool) (block : List Tok)
     (evs : Array (Ev α)) (p : Option String) (ha : AgreeOn (otherFlags [Gen.EXT_ADVANCED_UNITS]) e₁ e₂)
